@@ -82,3 +82,11 @@ package ctpolicy
 //@ fresh result
 //@ ensures [a-fresh-table] result != nil
 //@ note body not verified (maps of maps built by nested iteration): the table maps each log URL to the names of the groups that contain it
+
+// Weight tables (C17): a table is accepted for a group only if enough of the group's OWN logs keep a
+// positive weight to reach the group's minimum — weights of logs outside the group do not count.
+//@ func (*LogGroupInfo).satisfyMinimalInclusion
+//@ props C17
+//@ pure
+//@ requires group != nil
+//@ loop 1 step-assert [only-positive-weights-of-the-groups-own-logs-are-counted] (next(nonZeroNum) == head(nonZeroNum) + 1 && (has(group.LogURLs, logURL) && group.LogURLs[logURL]) && w > 0) || (next(nonZeroNum) == head(nonZeroNum) && !((has(group.LogURLs, logURL) && group.LogURLs[logURL]) && w > 0))
